@@ -65,6 +65,43 @@ Qed.
 Lemma jwsum_app a b : jwsum (a ++ b) = jwsum a + jwsum b.
 Proof. unfold jwsum. rewrite map_app, list_sum_app. reflexivity. Qed.
 
+Lemma nodupb_complete l : NoDup l -> nodupb l = true.
+Proof.
+  induction 1 as [|x l Hn _ IH]; cbn [nodupb]; [reflexivity|]. rewrite IH, andb_true_r. apply negb_true_iff.
+  destruct (existsb (leqb x) l) eqn:Ee; [|reflexivity].
+  apply existsb_exists in Ee as [y [Hy He]]. apply leqb_spec in He. subst. contradiction.
+Qed.
+
+Lemma insert_kv_fresh {A} k (v : A) l : ~ In k (keys l) -> insert_kv k v l = l ++ [(k, v)].
+Proof.
+  induction l as [|[k' v'] l IH]; cbn [insert_kv keys map fst app]; intro H; [reflexivity|].
+  destruct (leqb k k') eqn:Ek.
+  - apply leqb_spec in Ek. subst. exfalso. apply H. left. reflexivity.
+  - unfold keys in IH. rewrite IH; [reflexivity|]. intro Hi. apply H. right. exact Hi.
+Qed.
+
+Lemma dedup_last_acc {A} : forall (l acc : list (str * A)), NoDup (keys (acc ++ l)) ->
+  fold_left (fun a kv => insert_kv (fst kv) (snd kv) a) l acc = acc ++ l.
+Proof.
+  induction l as [|[k v] l IH]; intros acc H; cbn [fold_left]; [rewrite app_nil_r; reflexivity|].
+  cbn [fst snd].
+  assert ((acc ++ [(k, v)]) ++ l = acc ++ (k, v) :: l) as Heq by (rewrite <- app_assoc; reflexivity).
+  rewrite insert_kv_fresh.
+  - rewrite IH; [exact Heq | rewrite Heq; exact H].
+  - unfold keys in *. rewrite map_app in H. cbn [map fst] in H. apply NoDup_remove_2 in H.
+    intro Hi. apply H. apply in_or_app. left. exact Hi.
+Qed.
+
+(* a map without repeated keys is read back as it is *)
+Lemma dedup_last_id {A} (l : list (str * A)) : NoDup (keys l) -> dedup_last l = l.
+Proof. intro H. unfold dedup_last. apply (dedup_last_acc l []). exact H. Qed.
+
+Lemma filter_none {A} (P : A -> bool) l : (forall x, In x l -> P x = false) -> filter P l = [].
+Proof.
+  induction l as [|x l IH]; intro H; [reflexivity|]. cbn [filter]. rewrite (H x (or_introl eq_refl)).
+  apply IH. intros y Hy. apply H. right. exact Hy.
+Qed.
+
 Section Proofs.
   Variable E : env.
   Notation ser := (ser E).
@@ -298,6 +335,31 @@ Section Proofs.
     Qed.
   End OneStruct.
 
+  (* the entries that carry a field's own name are pairwise distinct in what `ser` writes: no `duplicate field` *)
+  Lemma own_keys_nodup own : forall fs l,
+    NoDup (map fname fs) ->
+    (forall f, In f fs -> fflatten f = true -> flatten_ok E own f = true) ->
+    NoDup (own_keys own (ser_fields fs l)) /\ (forall k, In k (own_keys own (ser_fields fs l)) -> In k (map fname fs)).
+  Proof.
+    unfold own_keys, keys.
+    induction fs as [|f fs IH]; intros [|v l] Hnd Hflat; try (split; [constructor | intros k []]).
+    cbn [map] in Hnd. inversion Hnd as [|? ? Hnotin Hnd']; subst.
+    destruct (IH l Hnd' (fun f1 H1 => Hflat f1 (or_intror H1))) as [IH1 IH2].
+    rewrite ser_fields_cons, map_app, filter_app.
+    assert (filter (fun k => mem k own) (map fst (ser_field f v)) = []
+            \/ filter (fun k => mem k own) (map fst (ser_field f v)) = [fname f]) as Hhead.
+    { destruct (fflatten f) eqn:Ef.
+      - left. apply filter_none. intros k Hk.
+        apply (ser_field_flat_keys own f v k Ef (Hflat f (or_introl eq_refl) Ef)). exact Hk.
+      - unfold Serde.ser_field. rewrite Ef. destruct (skipped (fskip f) v); cbn [map fst filter]; [left; reflexivity|].
+        destruct (mem (fname f) own); [right | left]; reflexivity. }
+    destruct Hhead as [-> | ->]; cbn [app].
+    - split; [exact IH1 | intros k Hk; right; apply IH2; exact Hk].
+    - split.
+      + constructor; [intro Hi; apply Hnotin; apply IH2; exact Hi | exact IH1].
+      + intros k [<-|Hk]; [left; reflexivity | right; apply IH2; exact Hk].
+  Qed.
+
   Lemma jwsum_ser_field_le : forall fs l f0 v0,
     In (f0, v0) (combine fs l) -> jwsum (ser_field f0 v0) <= jwsum (ser_fields fs l).
   Proof.
@@ -498,7 +560,9 @@ Section Proofs.
     forall f, jwsum (ser_fields fs l) <= f -> de_fields E (de_fuel f) fs (ser_fields fs l) = Some l.
   Proof.
     intros IHn Hsz Hok Hwt Hj f Hf. apply fields_ok_facts in Hok. destruct Hok as [Hnd Hone Hdesc Hskip Hdef Hflat].
-    unfold de_fields. apply de_fields_own_pointwise; [eapply Forall2_len; exact Hwt|].
+    unfold de_fields.
+    rewrite (nodupb_complete _ (proj1 (own_keys_nodup (own_names fs) fs l Hnd (fun f1 Hf1 _ => Hflat f1 Hf1)))).
+    apply de_fields_own_pointwise; [eapply Forall2_len; exact Hwt|].
     intros f0 v0 Hin.
     assert (In f0 fs) as Hf0 by (eapply in_combine_l; exact Hin).
     assert (In v0 l) as Hv0 by (eapply in_combine_r; exact Hin).
@@ -582,7 +646,8 @@ Section Proofs.
     - (* DMap *)
       rewrite ser_VMap in *. unfold vec_inner in *. cbn [unbox] in *. cbn [de_body].
       rewrite jw_obj in Hf. rewrite vsize_map in Hsz.
-      rewrite (rt_map d l); try assumption; [reflexivity | | lia].
+      rewrite (rt_map d l); try assumption;
+        [cbn [option_map]; rewrite dedup_last_id by assumption; reflexivity | | lia].
       intros kv Hkv. apply IHn. pose proof (in_vmsum kv l Hkv). lia.
     - (* DBox *)
       rewrite ser_box in *. cbn [de_body]. rewrite <- de_fuel_S. apply IHd; assumption.
